@@ -36,6 +36,13 @@ def cases(rng, tier):
     for i in range(n_):
         n = rng.randint(1, 40)
         a = rng.values(n)
+        r_ = rng.random()
+        if r_ < 0.12:
+            a = [v - max(a) for v in a]        # a level relative to full scale: no sample above 0, the peak exactly 0
+        elif r_ < 0.2:
+            a = [v - min(a) for v in a]        # a counter above its floor: the smallest sample exactly 0
+        elif r_ < 0.25:
+            a = [-abs(v) for v in a]           # nothing above 0
         mode = rng.choice(["db", "db", "lin", "std"])
         per = rng.random() < 0.35
         if mode == "db":
